@@ -1,15 +1,31 @@
 (* Proofs/C09.v — Sprint output parses again: what survives and what does not.
 
-   1. struct_eq: equality of operation trees up to the userString fields and
-      the invalid / must_end flags; evaluation does not see the difference
-      (C09_same_result).
-   2. String literals: the generated escape / unescape tables are mutually
-      inverse; unescape (escape v) = v on clean strings, in any rule order.
-   3. Numeric literals: numeral (dec_to_string d) = NumOk d for canonical d.
-   4. `?` marks.
-   5/6. The reparse theorem for key-only paths, fixed point, userString.
+   1.  struct_eq: equality of operation trees up to the userString fields and
+       the invalid / must_end flags; evaluation does not see the difference
+       (C09_same_result, C09_same_result_top).
+   2.  String literals.  (a) the generated escape / unescape tables are
+       mutually inverse rule by rule (C09_escape_unescape_tables); (b) escape
+       and unescape are single passes independent of the rule order (Go
+       iterates over a map): C09_escape_order_independent,
+       C09_unescape_order_independent; unescape (escape v) = v on clean
+       strings (C09_unescape_escape, ..._any_order), on the larger class
+       wclean (C09_unescape_escape_weak) and on every value unescape can
+       produce (C09_unescape_escape_on_image); (c) the printed literal is one
+       string token whose value is v (C09_literal_lex, C09_literal_roundtrip,
+       lit_ok_ascii, lit_ok_utf8); (d,e) complete statement for every string
+       token the scanner accepts, any UTF-8 content
+       (C09_string_token_roundtrip).
+   3.  Numeric literals: numeral (dec_to_string d) = NumOk d for canonical d
+       within the 15-digit window (C09_number_roundtrip).
+   4.  `?` marks (C09_key_roundtrip).
+   5/6. Reparse, fixed point and userString for key-only paths
+       (C09_keypath_reparse, C09_keypath_struct_eq, C09_keypath_userstring)
+       and for paths of keys and calls of known functions with literal
+       arguments (C09_litfunc_reparse, C09_litfunc_userstring).
+   Findings (_refuted examples) at the end: path / group arguments are printed
+   with their userString, which glues tokens together.
 
-   No axioms; Print Assumptions at the end. *)
+   No axioms; Print Assumptions for every C09_* statement at the end. *)
 From Coq Require Import Permutation.
 From Coq Require DecimalString DecimalPos DecimalFacts.
 From Mpath.Model Require Import Base Dec Types GoVal Ast Lexer Parser Printer Funcs Eval.
@@ -3208,3 +3224,1551 @@ Proof.
   replace (byte c =? rune_error) with false by (symmetry; apply Z.eqb_neq; unfold rune_error; lia).
   split; reflexivity.
 Qed.
+
+(* ================================================================== *)
+(** * 2e. String literals with arbitrary UTF-8 content                  *)
+(* ================================================================== *)
+
+Definition rune_shape (rb : Z * str) : Prop :=
+  (0 < fst rb < 128 /\ exists c, snd rb = [c] /\ byte c = fst rb) \/
+  (128 <= fst rb /\ snd rb <> [] /\ Forall (fun c => 128 <= byte c) (snd rb)).
+
+Definition valid_utf8 (s : str) : Prop := exists cs, chars_fuel (S (length s)) s = Some cs.
+
+Lemma valid_runes s : valid_utf8 s <->
+  exists cs, Forall u8_good_rune cs /\ Forall rune_shape cs /\ concat (map snd cs) = s.
+Proof.
+  split.
+  - intros [cs H]. exists cs.
+    destruct (u8_chars_good _ _ _ (Nat.lt_succ_diag_r _) H) as [Hg Hc].
+    split; [exact Hg|]. split; [|exact Hc].
+    exact (u8_rune_shape _ _ _ (Nat.lt_succ_diag_r _) H).
+  - intros (cs & Hg & _ & Hc). exists cs. subst s. apply u8_good_chars; [exact Hg|lia].
+Qed.
+
+Definition high_byte (c : ascii) : Prop := 128 <= byte c.
+
+Lemma high_fact_all : forall c,
+  is_asc c || (byte c =? 0) ||
+  (str_eqb (esc_byte c) [c] && negb (Ascii.eqb c bslash) && negb (Ascii.eqb c dquote) &&
+   negb (Ascii.eqb c lfchar) && match unesc_byte c with None => true | Some _ => false end) = true.
+Proof. apply forall_bytes. vm_compute. reflexivity. Qed.
+
+Lemma high_facts c : high_byte c ->
+  esc_byte c = [c] /\ c <> bslash /\ c <> dquote /\ c <> lfchar /\ unesc_byte c = None.
+Proof.
+  unfold high_byte. intros H. pose proof (high_fact_all c) as F.
+  assert (Ha : is_asc c = false).
+  { unfold is_asc. apply andb_false_iff. right. apply Z.ltb_ge. exact H. }
+  assert (Hz : (byte c =? 0) = false) by (apply Z.eqb_neq; lia).
+  rewrite Ha, Hz in F. cbn [orb] in F.
+  apply andb_true_iff in F. destruct F as [F F5].
+  apply andb_true_iff in F. destruct F as [F F4].
+  apply andb_true_iff in F. destruct F as [F F3].
+  apply andb_true_iff in F. destruct F as [F1 F2].
+  apply str_eqb_eq in F1.
+  repeat split; try (apply neqb_neq; assumption); try assumption.
+  destruct (unesc_byte c); [discriminate|reflexivity].
+Qed.
+
+Lemma lit_safe_high : forall b rest st, b <> [] -> Forall high_byte b ->
+  lit_safe st (b ++ rest) = lit_safe false rest.
+Proof.
+  induction b as [|c b IH]; intros rest st Hne HF; [congruence|].
+  inversion HF as [|? ? Hc HF']; subst.
+  destruct (high_facts c Hc) as (_ & Hb & Hq & Hl & _).
+  cbn [app]. rewrite lit_safe_plain by assumption.
+  destruct b as [|c' b']; [reflexivity|].
+  apply IH; [discriminate|exact HF'].
+Qed.
+
+(** the rune-level scanner automaton only depends on the bytes *)
+Lemma rsafe_bytes : forall cs st, Forall rune_shape cs ->
+  rsafe st cs = lit_safe st (concat (map snd cs)).
+Proof.
+  induction cs as [|[r b] cs IH]; intros st HF; [reflexivity|].
+  inversion HF as [|? ? Hs HF']; subst. cbn [map concat snd].
+  destruct Hs as [(Hr & c & Hb & Hc)|(Hr & Hne & Hh)]; cbn [fst snd] in *.
+  - subst b. cbn [app rsafe lit_safe].
+    destruct (byte_consts c) as (H1 & H2 & H3 & _). rewrite Hc in *.
+    rewrite H1, H2, H3, !(IH _ HF'). reflexivity.
+  - rewrite (lit_safe_high b _ st Hne Hh). cbn [rsafe].
+    replace (r =? 10) with false by (symmetry; apply Z.eqb_neq; lia).
+    replace (r =? 34) with false by (symmetry; apply Z.eqb_neq; lia).
+    replace (r =? 92) with false by (symmetry; apply Z.eqb_neq; lia).
+    cbn [negb andb orb]. destruct st; apply IH; exact HF'.
+Qed.
+
+Lemma asc_runes_good : forall w, forallb is_asc w = true ->
+  Forall u8_good_rune (asc_runes w) /\ Forall rune_shape (asc_runes w) /\
+  concat (map snd (asc_runes w)) = w.
+Proof.
+  induction w as [|c w IH]; intros H; [repeat split; constructor|].
+  cbn [forallb] in H. apply andb_true_iff in H. destruct H as [Hc Hw].
+  destruct (IH Hw) as (I1 & I2 & I3).
+  unfold is_asc in Hc. apply andb_true_iff in Hc. destruct Hc as [H0 H1].
+  apply Z.ltb_lt in H0. apply Z.ltb_lt in H1.
+  unfold asc_runes in *. cbn [map concat snd app]. repeat split.
+  - constructor; [apply u8_good_ascii; lia|exact I1].
+  - constructor; [|exact I2]. left. cbn [fst snd]. split; [lia|]. exists c. split; reflexivity.
+  - rewrite I3. reflexivity.
+Qed.
+
+Lemma flat_map_high_id : forall b, Forall high_byte b -> flat_map esc_byte b = b.
+Proof.
+  induction b as [|c b IH]; intros HF; [reflexivity|].
+  inversion HF as [|? ? Hc HF']; subst. cbn [flat_map].
+  destruct (high_facts c Hc) as (He & _). rewrite He, (IH HF'). reflexivity.
+Qed.
+
+Lemma valid_escape : forall s, valid_utf8 s -> valid_utf8 (flat_map esc_byte s).
+Proof.
+  intros s Hv. apply valid_runes in Hv. destruct Hv as (cs & Hg & Hs & Hc). subst s.
+  apply valid_runes.
+  induction cs as [|[r b] cs IH]; [exists []; repeat split; constructor|].
+  inversion Hg as [|? ? Hg1 Hg']; subst. inversion Hs as [|? ? Hs1 Hs']; subst.
+  destruct (IH Hg' Hs') as (cs2 & G2 & S2 & C2).
+  cbn [map concat snd]. rewrite flat_map_app.
+  destruct Hs1 as [(Hr & c & Hb & Hc)|(Hr & Hne & Hh)]; cbn [fst snd] in *.
+  - subst b. cbn [flat_map]. rewrite app_nil_r.
+    assert (Ha : is_asc c = true).
+    { unfold is_asc. apply andb_true_iff. split; apply Z.ltb_lt; lia. }
+    destruct (byte_consts c) as (_ & _ & _ & Hesc). specialize (Hesc Ha).
+    destruct (asc_runes_good (esc_byte c) Hesc) as (A1 & A2 & A3).
+    exists (asc_runes (esc_byte c) ++ cs2). repeat split.
+    + apply Forall_app. split; assumption.
+    + apply Forall_app. split; assumption.
+    + rewrite map_app, concat_app, A3, C2. reflexivity.
+  - rewrite (flat_map_high_id b Hh).
+    exists ((r, b) :: cs2). repeat split.
+    + constructor; assumption.
+    + constructor; [right; cbn [fst snd]; repeat split; assumption|exact S2].
+    + cbn [map concat snd]. rewrite C2. reflexivity.
+Qed.
+
+Lemma pass_app_high : forall f b rest, Forall high_byte b ->
+  unesc_pass f (b ++ rest) = b ++ unesc_pass f rest.
+Proof.
+  induction b as [|c b IH]; intros rest HF; [reflexivity|].
+  inversion HF as [|? ? Hc HF']; subst.
+  destruct (high_facts c Hc) as (_ & Hb & _).
+  cbn [app]. rewrite pass_cons_nb by (apply neq_eqb_false; exact Hb).
+  rewrite (IH rest HF'). reflexivity.
+Qed.
+
+Lemma valid_unesc_n : forall n cs, (length cs <= n)%nat ->
+  Forall u8_good_rune cs -> Forall rune_shape cs ->
+  exists cs2, Forall u8_good_rune cs2 /\ Forall rune_shape cs2 /\
+              concat (map snd cs2) = unesc_pass unesc_byte (concat (map snd cs)).
+Proof.
+  induction n as [|n IH]; intros cs Hn Hg Hs.
+  - destruct cs; [|cbn [length] in Hn; lia]. exists []. repeat split; constructor.
+  - destruct cs as [|[r b] cs]; [exists []; repeat split; constructor|].
+    cbn [length] in Hn.
+    inversion Hg as [|? ? Hg1 Hg']; subst. inversion Hs as [|? ? Hs1 Hs']; subst.
+    cbn [map concat snd].
+    destruct Hs1 as [(Hr & c & Hb & Hc)|(Hr & Hne & Hh)]; cbn [fst snd] in *.
+    + subst b. subst r. cbn [app].
+      destruct (Ascii.eqb c bslash) eqn:Hcb.
+      * apply Ascii.eqb_eq in Hcb. subst c.
+        (* what follows the backslash? *)
+        destruct cs as [|[r' b'] cs'].
+        { exists [(byte bslash, [bslash])]. repeat split.
+          - constructor; [exact Hg1|constructor].
+          - constructor; [left; cbn [fst snd]; split; [lia|exists bslash; split; reflexivity]|constructor]. }
+        inversion Hg' as [|? ? Hg2 Hg'']; subst. inversion Hs' as [|? ? Hs2 Hs'']; subst.
+        cbn [length] in Hn. cbn [map concat snd].
+        destruct Hs2 as [(Hr' & d & Hb' & Hd)|(Hr' & Hne' & Hh')]; cbn [fst snd] in *.
+        -- subst b'. subst r'. cbn [app]. destruct (unesc_byte d) as [y|] eqn:Hu.
+           ++ rewrite (pass_bs_some unesc_byte d y) by exact Hu.
+              destruct (IH cs' ltac:(lia) Hg'' Hs'') as (cs2 & G2 & S2 & C2).
+              destruct (unesc_some d y Hu) as (_ & _ & _ & _ & _ & Hy & _).
+              destruct (asc_runes_good [y]) as (A1 & A2 & A3).
+              { cbn [forallb]. rewrite Hy. reflexivity. }
+              exists (asc_runes [y] ++ cs2). repeat split.
+              ** apply Forall_app. split; assumption.
+              ** apply Forall_app. split; assumption.
+              ** rewrite map_app, concat_app, A3, C2. reflexivity.
+           ++ rewrite pass_bs_none by exact Hu.
+              destruct (IH ((byte d, [d]) :: cs') ltac:(cbn [length]; lia) Hg' Hs') as (cs2 & G2 & S2 & C2).
+              cbn [map concat snd app] in C2.
+              exists ((byte bslash, [bslash]) :: cs2). repeat split.
+              ** constructor; assumption.
+              ** constructor; [left; cbn [fst snd]; split; [lia|exists bslash; split; reflexivity]|exact S2].
+              ** cbn [map concat snd app]. rewrite C2. reflexivity.
+        -- destruct b' as [|d b'']; [congruence|]. cbn [app].
+           inversion Hh' as [|? ? Hdh _]; subst.
+           destruct (high_facts d Hdh) as (_ & _ & _ & _ & Hu).
+           rewrite pass_bs_none by exact Hu.
+           destruct (IH ((r', d :: b'') :: cs') ltac:(cbn [length]; lia) Hg' Hs') as (cs2 & G2 & S2 & C2).
+           cbn [map concat snd app] in C2.
+           exists ((byte bslash, [bslash]) :: cs2). repeat split.
+           ** constructor; assumption.
+           ** constructor; [left; cbn [fst snd]; split; [lia|exists bslash; split; reflexivity]|exact S2].
+           ** cbn [map concat snd app]. rewrite C2. reflexivity.
+      * rewrite pass_cons_nb by exact Hcb.
+        destruct (IH cs ltac:(lia) Hg' Hs') as (cs2 & G2 & S2 & C2).
+        exists ((byte c, [c]) :: cs2). repeat split.
+        -- constructor; assumption.
+        -- constructor; [left; cbn [fst snd]; split; [lia|exists c; split; reflexivity]|exact S2].
+        -- cbn [map concat snd app]. rewrite C2. reflexivity.
+    + rewrite (pass_app_high unesc_byte b _ Hh).
+      destruct (IH cs ltac:(lia) Hg' Hs') as (cs2 & G2 & S2 & C2).
+      exists ((r, b) :: cs2). repeat split.
+      * constructor; assumption.
+      * constructor; [right; cbn [fst snd]; repeat split; assumption|exact S2].
+      * cbn [map concat snd]. rewrite C2. reflexivity.
+Qed.
+
+Lemma valid_unesc : forall s, valid_utf8 s -> valid_utf8 (unesc_pass unesc_byte s).
+Proof.
+  intros s Hv. apply valid_runes in Hv. destruct Hv as (cs & Hg & Hs & Hc). subst s.
+  apply valid_runes. exact (valid_unesc_n (length cs) cs (le_n _) Hg Hs).
+Qed.
+
+(** a quoted body the scanner accepts is one string token *)
+Lemma lex_quoted : forall uni w cs,
+  chars_fuel (S (length w)) w = Some cs -> rsafe false cs = true ->
+  lex uni (bs """" ++ w ++ bs """") = Some [mkTok TString (bs """" ++ w ++ bs """") (-1)].
+Proof.
+  intros uni w cs Hcs Hs. unfold lex, chars.
+  rewrite (c9_chars_quote_app _ _ Hcs).
+  replace (34 =? bom) with false by reflexivity.
+  cbn [length]. rewrite tokens_string by exact Hs.
+  assert (Hb : concat (map snd cs) = w).
+  { apply (rp_chars_fuel_bytes _ _ _ Hcs). lia. }
+  rewrite Hb.
+  destruct (length (cs ++ [(34, bs """")])) as [|k] eqn:El.
+  { rewrite app_length in El. cbn [length] in El. lia. }
+  reflexivity.
+Qed.
+
+Lemma lit_ok_of_bytes : forall v, valid_utf8 (escape v) -> lit_safe false (escape v) = true -> lit_ok v.
+Proof.
+  intros v [cs Hcs] Hs. exists cs. split; [exact Hcs|].
+  rewrite (rsafe_bytes cs false (u8_rune_shape _ _ _ (Nat.lt_succ_diag_r _) Hcs)).
+  rewrite (rp_chars_fuel_bytes _ _ _ Hcs (Nat.lt_succ_diag_r _)). exact Hs.
+Qed.
+
+(** C09 for string literals, complete: whatever string token the scanner
+    accepts (any UTF-8 content, any escapes), the value the parser stores for
+    it is printed by Sprint as a literal that is again one string token, and
+    that token yields the same value. *)
+Theorem C09_string_token_roundtrip : forall uni body cs,
+  chars_fuel (S (length body)) body = Some cs -> rsafe false cs = true ->
+  let tok := bs """" ++ body ++ bs """" in
+  let v := unescape (strip_dquotes tok) in
+  lex uni tok = Some [mkTok TString tok (-1)] /\
+  lex uni (param_string (FPStr v)) = Some [mkTok TString (param_string (FPStr v)) (-1)] /\
+  unescape (strip_dquotes (param_string (FPStr v))) = v /\
+  wclean v /\ lit_ok v.
+Proof.
+  intros uni body cs Hcs Hs tok v. unfold v, tok. rewrite strip_dquotes_quoted.
+  assert (Hl : lit_ok (unescape body)).
+  { apply lit_ok_of_bytes.
+    - rewrite escape_bytewise, unescape_pass. apply valid_escape, valid_unesc. exists cs. exact Hcs.
+    - apply lit_safe_image.
+      rewrite <- (rp_chars_fuel_bytes _ _ _ Hcs (Nat.lt_succ_diag_r _)).
+      rewrite <- (rsafe_bytes cs false (u8_rune_shape _ _ _ (Nat.lt_succ_diag_r _) Hcs)). exact Hs. }
+  split; [apply (lex_quoted uni body cs Hcs Hs)|].
+  split; [apply C09_literal_lex; exact Hl|].
+  split; [cbn [param_string]; rewrite strip_dquotes_quoted; apply C09_unescape_escape_on_image|].
+  split; [apply C09_unescape_image_wclean|exact Hl].
+Qed.
+
+(** a syntactic class of printable values, now with UTF-8: valid UTF-8 without
+    NUL, clean, not ending in an odd run of backslashes *)
+Theorem lit_ok_utf8 : forall v,
+  valid_utf8 v -> clean v -> Nat.even (trailing_bslashes v) = true -> lit_ok v.
+Proof.
+  intros v Hv Hc Ht. apply lit_ok_of_bytes.
+  - rewrite escape_bytewise. apply valid_escape. exact Hv.
+  - rewrite escape_bytewise, <- rsafe_asc, (rsafe_escape v false Hc) by discriminate.
+    rewrite bs_pairs_trailing, <- Nat.negb_even, Ht. reflexivity.
+Qed.
+
+Corollary C09_literal_roundtrip_utf8 : forall uni v,
+  valid_utf8 v -> clean v -> Nat.even (trailing_bslashes v) = true ->
+  exists t, lex uni (param_string (FPStr v)) = Some [t] /\ tk t = TString /\
+            unescape (strip_dquotes (ttext t)) = v.
+Proof. intros uni v Hv Hc Ht. apply C09_literal_roundtrip; [exact Hc|apply lit_ok_utf8; assumption]. Qed.
+
+Example C09_string_utf8_example :
+  let body := bs "caf" ++ [chr 195; chr 169] ++ bs "\t\\n" in
+  exists cs, chars_fuel (S (length body)) body = Some cs /\ rsafe false cs = true /\
+             unescape body = bs "caf" ++ [chr 195; chr 169; chr 9; bslash; lfchar].
+Proof. eexists. vm_compute. repeat split; reflexivity. Qed.
+
+(* ================================================================== *)
+(** * 5 (extended). Paths of keys and calls of known functions with literal arguments *)
+(* ================================================================== *)
+(* ================================================================== *)
+(** * 7. Paths of keys and calls of known functions with literal arguments *)
+(* ================================================================== *)
+
+Definition known_func (ft : str) : Prop := exists d, In d func_table /\ ft = bs (fd_key d).
+Definition num_ok (d : dec) : Prop :=
+  dnorm d = d /\ Z.abs (coef d) * 10 ^ Z.max 0 (dexp d) < 10 ^ 15 /\
+  -300 <= dexp d + Z.of_nat (length (show_Z (Z.abs (coef d)))).
+Definition lit_param_ok (p : param) : Prop :=
+  match p with
+  | FPBool _ => True
+  | FPStr v => clean v /\ lit_ok v
+  | FPNum d => num_ok d
+  | FPPath _ | FPLog _ => False
+  end.
+Definition frag_op (uni : uclass) (o : pathop) : Prop :=
+  match o with
+  | PIdent k q _ => good_key uni (k, q)
+  | PFunc (Func _ ft ps _) => known_func ft /\ Forall lit_param_ok ps
+  | PFilter _ _ => False
+  end.
+
+(* ------------------------------------------------------------------ *)
+(** * The printed text                                                  *)
+(* ------------------------------------------------------------------ *)
+
+Fixpoint fc_tail_text (ps : list param) : str :=
+  match ps with
+  | [] => bs ")"
+  | p :: ps' => bs "," ++ param_string p ++ fc_tail_text ps'
+  end.
+Definition fc_args_text (ps : list param) : str :=
+  match ps with
+  | [] => bs ")"
+  | p :: ps' => param_string p ++ fc_tail_text ps'
+  end.
+Definition fc_func_text (ft : str) (ps : list param) : str := ft ++ bs "(" ++ fc_args_text ps.
+Definition fc_op_text (o : pathop) : str :=
+  match o with
+  | PIdent k q _ => bs "." ++ key_piece (k, q)
+  | PFunc (Func _ ft ps _) => bs "." ++ fc_func_text ft ps
+  | PFilter _ _ => []
+  end.
+Definition fc_ops_text (ops : list pathop) : str := concat (map fc_op_text ops).
+Definition fc_text (root : bool) (ops : list pathop) : str := rp_root_str root ++ fc_ops_text ops.
+
+(** what the parser rebuilds: every userString recomputed *)
+Definition fc_norm_op (o : pathop) : pathop :=
+  match o with
+  | PIdent k q _ => PIdent k q (key_piece (k, q))
+  | PFunc (Func inv ft ps us) => PFunc (Func false ft ps (sprint_func (Func inv ft ps us)))
+  | PFilter l us => PFilter l us
+  end.
+Definition fc_norm_ops (ops : list pathop) : list pathop := map fc_norm_op ops.
+
+Definition fc_no_filter (o : pathop) : Prop := match o with PFilter _ _ => False | _ => True end.
+
+Lemma fc_concat_str_tail : forall ps p,
+  concat_str (bs ",") (map param_string (p :: ps)) ++ bs ")" = param_string p ++ fc_tail_text ps.
+Proof.
+  induction ps as [|p' ps IH]; intros p; [reflexivity|].
+  change (concat_str (bs ",") (map param_string (p :: p' :: ps)))
+    with (param_string p ++ bs "," ++ concat_str (bs ",") (map param_string (p' :: ps))).
+  rewrite <- !app_assoc. rewrite IH. reflexivity.
+Qed.
+
+Lemma fc_sprint_func : forall inv ft ps us,
+  sprint_func (Func inv ft ps us) = fc_func_text ft ps.
+Proof.
+  intros inv ft ps us. unfold sprint_func, fc_func_text. f_equal. f_equal.
+  destruct ps as [|p ps]; [reflexivity|]. apply fc_concat_str_tail.
+Qed.
+
+Lemma fc_sprint_ops : forall k ops, Forall fc_no_filter ops ->
+  concat (map (fun o => match o with
+                        | PIdent name q _ => bs "." ++ name ++ (if q then bs "?" else [])
+                        | PFilter l _ => sprint_log k 0 l
+                        | PFunc f => bs "." ++ sprint_func f
+                        end) ops) = fc_ops_text ops.
+Proof.
+  intros k ops H. unfold fc_ops_text. induction H as [|o ops Ho _ IH]; [reflexivity|].
+  cbn [map concat]. rewrite IH. f_equal.
+  destruct o as [name q us|l us|[inv ft ps us]]; [reflexivity|contradiction|].
+  cbn [fc_op_text]. rewrite fc_sprint_func. reflexivity.
+Qed.
+
+Theorem C09_litfunc_sprint : forall inv root isf me ops us,
+  Forall fc_no_filter ops ->
+  sprint_top (TopP (Path inv root isf me ops us)) = fc_text root ops.
+Proof.
+  intros inv root isf me ops us H.
+  unfold sprint_top, fc_text. cbn [path_us sprint_path]. unfold tabs. cbn [repeat app].
+  rewrite (fc_sprint_ops _ _ H). destruct root; reflexivity.
+Qed.
+
+Lemma fc_frag_no_filter : forall uni ops, Forall (frag_op uni) ops -> Forall fc_no_filter ops.
+Proof.
+  intros uni ops H. eapply Forall_impl; [|exact H].
+  intros [k q us|l us|f] Ho; [exact I|exact Ho|exact I].
+Qed.
+
+Lemma fc_norm_no_filter : forall ops, Forall fc_no_filter ops -> Forall fc_no_filter (fc_norm_ops ops).
+Proof.
+  intros ops H. unfold fc_norm_ops. induction H as [|o ops Ho _ IH]; [constructor|].
+  cbn [map]. constructor; [|exact IH].
+  destruct o as [k q us|l us|[inv ft ps us]]; [exact I|contradiction|exact I].
+Qed.
+
+Lemma fc_norm_text : forall ops, fc_ops_text (fc_norm_ops ops) = fc_ops_text ops.
+Proof.
+  intros ops. unfold fc_ops_text, fc_norm_ops. induction ops as [|o ops IH]; [reflexivity|].
+  cbn [map concat]. rewrite IH. f_equal.
+  destruct o as [k q us|l us|[inv ft ps us]]; reflexivity.
+Qed.
+
+(* ------------------------------------------------------------------ *)
+(** * Rune facts on the generated tables                                *)
+(* ------------------------------------------------------------------ *)
+
+(** for a rune below 128 the classifier is not consulted *)
+Definition fc_ident_b (c : Z) : bool := negb (zmem c invalid_runes) && (33 <=? c) && (c <=? 126).
+
+Lemma fc_ident_b_sound : forall uni c, fc_ident_b c = true -> is_ident_rune uni c = true.
+Proof.
+  intros uni c H. unfold fc_ident_b in H.
+  apply andb_true_iff in H. destruct H as [H H3].
+  apply andb_true_iff in H. destruct H as [H1 H2].
+  apply negb_true_iff in H1. apply Z.leb_le in H2. apply Z.leb_le in H3.
+  unfold is_ident_rune, is_space, is_print. rewrite H1.
+  replace (c <? 128) with true by (symmetry; apply Z.ltb_lt; lia).
+  replace (9 <=? c) with true by (symmetry; apply Z.leb_le; lia).
+  replace (c <=? 13) with false by (symmetry; apply Z.leb_gt; lia).
+  replace (c =? 32) with false by (symmetry; apply Z.eqb_neq; lia).
+  replace (32 <=? c) with true by (symmetry; apply Z.leb_le; lia).
+  replace (c <=? 126) with true by (symmetry; apply Z.leb_le; lia).
+  reflexivity.
+Qed.
+
+Lemma fc_ident_b_asc : forall ch, fc_ident_b (byte ch) = true -> is_asc ch = true.
+Proof.
+  intros ch H. unfold fc_ident_b in H.
+  apply andb_true_iff in H. destruct H as [H H3].
+  apply andb_true_iff in H. destruct H as [_ H2].
+  apply Z.leb_le in H2. apply Z.leb_le in H3.
+  unfold is_asc. apply andb_true_iff. split; apply Z.ltb_lt; lia.
+Qed.
+
+Definition fc_ident_str (w : str) : bool := forallb (fun ch => fc_ident_b (byte ch)) w.
+
+Lemma fc_invalid_40 : zmem 40 invalid_runes = true. Proof. vm_compute. reflexivity. Qed.
+Lemma fc_invalid_41 : zmem 41 invalid_runes = true. Proof. vm_compute. reflexivity. Qed.
+Lemma fc_invalid_44 : zmem 44 invalid_runes = true. Proof. vm_compute. reflexivity. Qed.
+Lemma fc_ident_40 : forall uni, is_ident_rune uni 40 = false.
+Proof. intros uni. unfold is_ident_rune. rewrite fc_invalid_40. reflexivity. Qed.
+Lemma fc_ident_41 : forall uni, is_ident_rune uni 41 = false.
+Proof. intros uni. unfold is_ident_rune. rewrite fc_invalid_41. reflexivity. Qed.
+Lemma fc_ident_44 : forall uni, is_ident_rune uni 44 = false.
+Proof. intros uni. unfold is_ident_rune. rewrite fc_invalid_44. reflexivity. Qed.
+
+(** digits and the minus sign are identifier runes; a digit is neither t nor f *)
+Lemma fc_digit_facts : forall c,
+  implb (is_digit c || Ascii.eqb c "-"%char || Ascii.eqb c "."%char) (is_asc c) &&
+  implb (is_digit c || Ascii.eqb c "-"%char) (fc_ident_b (byte c)) &&
+  implb (is_digit c) (negb (Ascii.eqb c "t"%char) && negb (Ascii.eqb c "f"%char)) = true.
+Proof. apply forall_bytes. vm_compute. reflexivity. Qed.
+
+Lemma fc_digit_ident : forall c, is_digit c = true -> fc_ident_b (byte c) = true.
+Proof.
+  intros c H. pose proof (fc_digit_facts c) as F. rewrite H in F. cbn [orb implb] in F.
+  apply andb_true_iff in F. destruct F as [F _]. apply andb_true_iff in F. tauto.
+Qed.
+
+Lemma fc_digit_not_tf : forall c, is_digit c = true ->
+  Ascii.eqb c "t"%char = false /\ Ascii.eqb c "f"%char = false.
+Proof.
+  intros c H. pose proof (fc_digit_facts c) as F. rewrite H in F. cbn [orb implb] in F.
+  apply andb_true_iff in F. destruct F as [_ F]. apply andb_true_iff in F. destruct F as [F1 F2].
+  apply negb_true_iff in F1. apply negb_true_iff in F2. tauto.
+Qed.
+
+Lemma fc_minus_ident : fc_ident_b (byte "-"%char) = true.
+Proof. vm_compute. reflexivity. Qed.
+
+Lemma fc_digits_ident : forall s, all_digits s = true -> fc_ident_str s = true.
+Proof.
+  induction s as [|c s IH]; intros H; [reflexivity|].
+  cbn [all_digits] in H. apply andb_true_iff in H. destruct H as [Hc Hs].
+  unfold fc_ident_str. cbn [forallb]. rewrite (fc_digit_ident c Hc). exact (IH Hs).
+Qed.
+
+Lemma fc_bool_ident : forall b, fc_ident_str (param_string (FPBool b)) = true.
+Proof. intros [|]; vm_compute; reflexivity. Qed.
+
+(** the function table: every key is a non-empty ASCII identifier that the
+    parser's lookup by name maps to itself *)
+Definition fc_name_ok (ft : str) : bool :=
+  match ft with [] => false | _ => true end && fc_ident_str ft &&
+  match ft_get_by_name ft with Some k => str_eqb k ft | None => false end.
+
+Lemma fc_func_table_ok : forallb (fun d => fc_name_ok (bs (fd_key d))) func_table = true.
+Proof. vm_compute. reflexivity. Qed.
+
+Lemma fc_known_func : forall ft, known_func ft ->
+  ft <> [] /\ fc_ident_str ft = true /\ ft_get_by_name ft = Some ft.
+Proof.
+  intros ft (d & Hin & ->).
+  pose proof (proj1 (forallb_forall _ _) fc_func_table_ok d Hin) as H. cbv beta in H.
+  unfold fc_name_ok in H.
+  apply andb_true_iff in H. destruct H as [H H3].
+  apply andb_true_iff in H. destruct H as [H1 H2].
+  split; [|split; [exact H2|]].
+  - intros E. rewrite E in H1. discriminate.
+  - destruct (ft_get_by_name (bs (fd_key d))) as [k|]; [|discriminate].
+    apply str_eqb_eq in H3. rewrite H3. reflexivity.
+Qed.
+
+(* ------------------------------------------------------------------ *)
+(** * The shape of a printed number                                     *)
+(* ------------------------------------------------------------------ *)
+
+Lemma fc_num_shape : forall d, dnorm d = d ->
+  exists neg ip fp,
+    dec_to_string d = num_signed neg (num_join ip fp) /\
+    all_digits ip = true /\ all_digits fp = true /\ ip <> [].
+Proof.
+  intros [c e] Hn.
+  destruct (num_canonical c e Hn) as [Hz Hnz].
+  destruct (Z.eq_dec c 0) as [Hc|Hc].
+  { subst c. rewrite (Hz eq_refl). exists false, (bs "0"), []. repeat split; discriminate. }
+  specialize (Hnz Hc). clear Hz.
+  assert (Habs : 0 < Z.abs c) by lia.
+  destruct (Z_le_gt_dec 0 e) as [He|He].
+  - rewrite num_dts_nonneg by assumption.
+    assert (Hp : 0 < 10 ^ e) by (apply Z.pow_pos_nonneg; lia).
+    assert (Hzpos : 0 < Z.abs c * 10 ^ e) by nia.
+    destruct (num_show_abs _ Hzpos) as (h & t & Hs & _ & Hd & _).
+    exists (c <? 0), (h :: t), []. rewrite Hs. repeat split; [exact Hd|discriminate].
+  - rewrite num_dts_neg by lia.
+    destruct (num_show_abs (Z.abs c) Habs) as (h & t & Hs & Hh & Hd & _).
+    assert (Hr : Z.rem (Z.abs c) 10 <> 0) by (rewrite Z.rem_abs_l by lia; lia).
+    destruct (num_show_last (Z.abs c) Habs Hr) as (pre & l & Hsl & Hl).
+    assert (Hd' : all_digits (show_Z (Z.abs c)) = true) by (rewrite Hs; exact Hd).
+    destruct (num_frac_body_spec (show_Z (Z.abs c)) h t pre l (Z.to_nat (- e)) Hs Hsl Hh Hl Hd' ltac:(lia))
+      as (ip & fp & Hbody & Hip & Hfp & Hne & _ & _).
+    exists (c <? 0), ip, fp. rewrite Hbody. repeat split; assumption.
+Qed.
+
+Lemma fc_signed_ident : forall neg ip, all_digits ip = true -> fc_ident_str (num_signed neg ip) = true.
+Proof.
+  intros neg ip H. destruct neg; cbn [num_signed]; [|apply fc_digits_ident; exact H].
+  unfold fc_ident_str. cbn [forallb]. rewrite fc_minus_ident. apply (fc_digits_ident _ H).
+Qed.
+
+Lemma fc_signed_split_nofrac : forall neg ip, all_digits ip = true ->
+  after_dot (num_signed neg ip) = None.
+Proof.
+  intros neg ip H. destruct (num_nodot_digits ip H) as (_ & E & _).
+  destruct neg; cbn [num_signed]; [|exact E]. cbn [after_dot]. exact E.
+Qed.
+
+Lemma fc_signed_split_frac : forall neg ip fp, all_digits ip = true ->
+  after_dot (num_signed neg (ip ++ "."%char :: fp)) = Some fp /\
+  before_dot (num_signed neg (ip ++ "."%char :: fp)) = num_signed neg ip.
+Proof.
+  intros neg ip fp H. destruct (num_before_dot_digits ip fp H) as (E1 & E2 & _).
+  destruct neg; cbn [num_signed]; [|split; assumption].
+  cbn [after_dot before_dot]. rewrite E1, E2. split; reflexivity.
+Qed.
+
+Lemma fc_signed_not_bool : forall neg ip, all_digits ip = true -> ip <> [] ->
+  str_eqb (num_signed neg ip) (bs "true") = false /\ str_eqb (num_signed neg ip) (bs "false") = false.
+Proof.
+  intros neg ip H Hne. destruct neg; cbn [num_signed]; [split; reflexivity|].
+  destruct ip as [|c ip]; [congruence|].
+  cbn [all_digits] in H. apply andb_true_iff in H. destruct H as [Hc _].
+  destruct (fc_digit_not_tf c Hc) as [Ht Hf].
+  change (bs "true") with ("t"%char :: bs "rue"). change (bs "false") with ("f"%char :: bs "alse").
+  cbn [str_eqb]. rewrite Ht, Hf. split; reflexivity.
+Qed.
+
+Lemma fc_num_asc : forall neg ip fp, all_digits ip = true -> all_digits fp = true ->
+  forallb is_asc (num_signed neg (num_join ip fp)) = true.
+Proof.
+  assert (Hd : forall s, all_digits s = true -> forallb is_asc s = true).
+  { induction s as [|c s IH]; intros H; [reflexivity|].
+    cbn [all_digits] in H. apply andb_true_iff in H. destruct H as [Hc Hs].
+    cbn [forallb]. rewrite (fc_ident_b_asc c (fc_digit_ident c Hc)). exact (IH Hs). }
+  intros neg ip fp Hip Hfp.
+  assert (Hj : forallb is_asc (num_join ip fp) = true).
+  { unfold num_join. destruct fp as [|f fp]; [exact (Hd _ Hip)|].
+    rewrite forallb_app, (Hd _ Hip). cbn [forallb andb]. exact (Hd _ Hfp). }
+  destruct neg; cbn [num_signed]; [|exact Hj]. cbn [forallb]. rewrite Hj. reflexivity.
+Qed.
+
+(* ------------------------------------------------------------------ *)
+(** * The character stream                                              *)
+(* ------------------------------------------------------------------ *)
+
+Definition fc_dec (s : str) (cs : list (Z * str)) : Prop := chars_fuel (S (length s)) s = Some cs.
+
+Lemma fc_dec_nil : fc_dec [] [].
+Proof. reflexivity. Qed.
+
+Lemma fc_dec_app : forall a ca b cb, fc_dec a ca -> fc_dec b cb -> fc_dec (a ++ b) (ca ++ cb).
+Proof.
+  intros a ca b cb Ha Hb. unfold fc_dec in *. rewrite (rp_chars_app a ca b Ha), Hb. reflexivity.
+Qed.
+
+Lemma fc_dec_asc : forall w, forallb is_asc w = true -> fc_dec w (asc_runes w).
+Proof. exact chars_asc. Qed.
+
+Lemma fc_asc_runes_app : forall a b, asc_runes (a ++ b) = asc_runes a ++ asc_runes b.
+Proof. intros a b. unfold asc_runes. apply map_app. Qed.
+
+Lemma fc_asc_runes_bytes : forall w, concat (map snd (asc_runes w)) = w.
+Proof. induction w as [|c w IH]; [reflexivity|]. cbn [asc_runes map concat snd app]. f_equal. exact IH. Qed.
+
+Definition fc_param_cs (p : param) : list (Z * str) :=
+  match p with
+  | FPStr v => (34, bs """") :: rp_runes (escape v) ++ [(34, bs """")]
+  | _ => asc_runes (param_string p)
+  end.
+
+Fixpoint fc_tail_cs (ps : list param) : list (Z * str) :=
+  match ps with
+  | [] => [(41, bs ")")]
+  | p :: ps' => (44, bs ",") :: fc_param_cs p ++ fc_tail_cs ps'
+  end.
+Definition fc_args_cs (ps : list param) : list (Z * str) :=
+  match ps with
+  | [] => [(41, bs ")")]
+  | p :: ps' => fc_param_cs p ++ fc_tail_cs ps'
+  end.
+Definition fc_op_cs (o : pathop) : list (Z * str) :=
+  match o with
+  | PIdent k q _ => (46, bs ".") :: rp_key_cs (k, q)
+  | PFunc (Func _ ft ps _) => (46, bs ".") :: asc_runes ft ++ (40, bs "(") :: fc_args_cs ps
+  | PFilter _ _ => []
+  end.
+Definition fc_ops_cs (ops : list pathop) : list (Z * str) := concat (map fc_op_cs ops).
+
+Lemma fc_dec_param : forall p, lit_param_ok p -> fc_dec (param_string p) (fc_param_cs p).
+Proof.
+  intros [d|v|b|q|l] H; cbn [lit_param_ok] in H; try contradiction.
+  - destruct H as (Hn & _ & _).
+    destruct (fc_num_shape d Hn) as (neg & ip & fp & Hs & Hip & Hfp & _).
+    cbn [fc_param_cs param_string]. apply fc_dec_asc. rewrite Hs. apply fc_num_asc; assumption.
+  - destruct H as (_ & cs & Hcs & _).
+    cbn [fc_param_cs param_string]. unfold rp_runes. rewrite Hcs.
+    exact (c9_chars_quote_app _ _ Hcs).
+  - cbn [fc_param_cs]. apply fc_dec_asc. destruct b; reflexivity.
+Qed.
+
+Lemma fc_dec_tail : forall ps, Forall lit_param_ok ps -> fc_dec (fc_tail_text ps) (fc_tail_cs ps).
+Proof.
+  intros ps H. induction H as [|p ps Hp _ IH]; [reflexivity|].
+  cbn [fc_tail_text fc_tail_cs].
+  apply (fc_dec_app (bs ",") [(44, bs ",")]); [reflexivity|].
+  apply fc_dec_app; [apply fc_dec_param; exact Hp|exact IH].
+Qed.
+
+Lemma fc_dec_args : forall ps, Forall lit_param_ok ps -> fc_dec (fc_args_text ps) (fc_args_cs ps).
+Proof.
+  intros ps H. destruct H as [|p ps Hp Hps]; [reflexivity|].
+  cbn [fc_args_text fc_args_cs].
+  apply fc_dec_app; [apply fc_dec_param; exact Hp|apply fc_dec_tail; exact Hps].
+Qed.
+
+Lemma fc_ident_str_asc : forall w, fc_ident_str w = true -> forallb is_asc w = true.
+Proof.
+  induction w as [|c w IH]; intros H; [reflexivity|].
+  unfold fc_ident_str in H. cbn [forallb] in H. apply andb_true_iff in H. destruct H as [Hc Hw].
+  cbn [forallb]. rewrite (fc_ident_b_asc c Hc). exact (IH Hw).
+Qed.
+
+Lemma fc_dec_op : forall uni o, frag_op uni o -> fc_dec (fc_op_text o) (fc_op_cs o).
+Proof.
+  intros uni [k q us|l us|[inv ft ps us]] H; cbn [frag_op] in H; [| contradiction |].
+  - cbn [fc_op_text fc_op_cs].
+    apply (fc_dec_app (bs ".") [(46, bs ".")]); [reflexivity|].
+    destruct (rp_good_key_runes _ _ H) as (Hr & _). cbn [fst] in Hr.
+    unfold key_piece, rp_key_cs. cbn [fst snd].
+    apply fc_dec_app; [exact Hr|]. destruct q; reflexivity.
+  - destruct H as (Hk & Hps). destruct (fc_known_func ft Hk) as (_ & Hid & _).
+    cbn [fc_op_text fc_op_cs]. unfold fc_func_text.
+    apply (fc_dec_app (bs ".") [(46, bs ".")]); [reflexivity|].
+    apply fc_dec_app; [apply fc_dec_asc, fc_ident_str_asc; exact Hid|].
+    apply (fc_dec_app (bs "(") [(40, bs "(")]); [reflexivity|].
+    apply fc_dec_args. exact Hps.
+Qed.
+
+Lemma fc_dec_ops : forall uni ops, Forall (frag_op uni) ops -> fc_dec (fc_ops_text ops) (fc_ops_cs ops).
+Proof.
+  intros uni ops H. unfold fc_ops_text, fc_ops_cs.
+  induction H as [|o ops Ho _ IH]; [reflexivity|].
+  cbn [map concat]. apply fc_dec_app; [exact (fc_dec_op uni o Ho)|exact IH].
+Qed.
+
+Lemma fc_chars_text : forall uni root ops, Forall (frag_op uni) ops ->
+  chars (fc_text root ops) = Some ((rp_root_rune root, rp_root_str root) :: fc_ops_cs ops).
+Proof.
+  intros uni root ops H. unfold chars, fc_text.
+  assert (E : fc_dec (rp_root_str root ++ fc_ops_text ops)
+                     ([(rp_root_rune root, rp_root_str root)] ++ fc_ops_cs ops)).
+  { apply fc_dec_app; [destruct root; reflexivity|exact (fc_dec_ops uni ops H)]. }
+  unfold fc_dec in E. rewrite E. cbn [app]. destruct root; reflexivity.
+Qed.
+
+(* ------------------------------------------------------------------ *)
+(** * The token stream                                                  *)
+(* ------------------------------------------------------------------ *)
+
+(** [cs] in front of [rest] lexes to [toks] in front of the tokens of [rest];
+    one unit of fuel per rune is enough *)
+Definition fc_lex (uni : uclass) (cs : list (Z * str)) (toks : list token) (rest : list (Z * str)) : Prop :=
+  forall k ts, tokens_fuel uni k rest = Some ts ->
+    tokens_fuel uni (length cs + k) (cs ++ rest) = Some (toks ++ ts).
+
+Lemma fc_lex_app : forall uni cs1 t1 cs2 t2 rest,
+  fc_lex uni cs1 t1 (cs2 ++ rest) -> fc_lex uni cs2 t2 rest ->
+  fc_lex uni (cs1 ++ cs2) (t1 ++ t2) rest.
+Proof.
+  intros uni cs1 t1 cs2 t2 rest H1 H2 k ts Hk.
+  rewrite app_length, <- !app_assoc, <- Nat.add_assoc. apply H1. apply H2. exact Hk.
+Qed.
+
+Lemma fc_lex_ch : forall uni c b rest,
+  is_ws c = false -> is_ident_rune uni c = false -> c <> 34 -> c <> 39 -> c <> 47 ->
+  fc_lex uni [(c, b)] [mkTok (TCh c) b (peek rest)] rest.
+Proof.
+  intros uni c b rest Hw Hi H34 H39 H47 k ts Hk.
+  cbn [length app Nat.add]. rewrite rp_tokens_ch by assumption. rewrite Hk. reflexivity.
+Qed.
+
+Lemma fc_lex_ident : forall uni cs1 rest,
+  cs1 <> [] ->
+  forallb (fun rb => is_ident_rune uni (fst rb)) cs1 = true ->
+  is_ident_rune uni (peek rest) = false ->
+  fc_lex uni cs1 [mkTok TIdent (concat (map snd cs1)) (peek rest)] rest.
+Proof.
+  intros uni cs1 rest Hne Hall Hstop k ts Hk.
+  destruct cs1 as [|x cs1'] eqn:E; [congruence|]. rewrite <- E in *.
+  assert (Hl : (length cs1 + k = S (length cs1' + k))%nat) by (rewrite E; reflexivity).
+  rewrite Hl. rewrite (rp_tokens_ident uni _ cs1 rest Hne Hall Hstop).
+  rewrite (rp_tokens_fuel_mono uni k (length cs1' + k) rest ts Hk) by lia. reflexivity.
+Qed.
+
+Lemma fc_lex_asc_ident : forall uni w rest,
+  w <> [] -> fc_ident_str w = true -> is_ident_rune uni (peek rest) = false ->
+  fc_lex uni (asc_runes w) [mkTok TIdent w (peek rest)] rest.
+Proof.
+  intros uni w rest Hne Hid Hstop.
+  rewrite <- (fc_asc_runes_bytes w) at 2. apply fc_lex_ident.
+  - destruct w; [congruence|discriminate].
+  - clear Hne. induction w as [|c w IH]; [reflexivity|].
+    unfold fc_ident_str in Hid. cbn [forallb] in Hid. apply andb_true_iff in Hid. destruct Hid as [Hc Hw].
+    cbn [asc_runes map forallb fst]. rewrite (fc_ident_b_sound uni _ Hc). exact (IH Hw).
+  - exact Hstop.
+Qed.
+
+Lemma fc_lex_string : forall uni q0 cs q rest,
+  rsafe false cs = true ->
+  fc_lex uni ((34, q0) :: cs ++ [(34, q)])
+         [mkTok TString (q0 ++ concat (map snd cs) ++ q) (peek rest)] rest.
+Proof.
+  intros uni q0 cs q rest Hs k ts Hk.
+  cbn [length app]. rewrite <- app_assoc. cbn [app Nat.add].
+  rewrite tokens_string by exact Hs.
+  rewrite (rp_tokens_fuel_mono uni k _ rest ts Hk) by lia. reflexivity.
+Qed.
+
+(** ** tokens of one parameter *)
+Definition fc_num_toks (s : str) (rest : list (Z * str)) : list token :=
+  match after_dot s with
+  | None => [mkTok TIdent s (peek rest)]
+  | Some f => [mkTok TIdent (before_dot s) 46;
+               mkTok (TCh 46) (bs ".") (peek (asc_runes f ++ rest));
+               mkTok TIdent f (peek rest)]
+  end.
+
+Definition fc_param_toks (p : param) (rest : list (Z * str)) : list token :=
+  match p with
+  | FPNum d => fc_num_toks (dec_to_string d) rest
+  | FPStr v => [mkTok TString (param_string p) (peek rest)]
+  | _ => [mkTok TIdent (param_string p) (peek rest)]
+  end.
+
+Lemma fc_lex_dot : forall uni rest, fc_lex uni [(46, bs ".")] [mkTok (TCh 46) (bs ".") (peek rest)] rest.
+Proof.
+  intros uni rest. apply fc_lex_ch; [reflexivity|apply rp_ident_46|discriminate|discriminate|discriminate].
+Qed.
+
+Lemma fc_lex_num : forall uni neg ip fp rest,
+  all_digits ip = true -> all_digits fp = true -> ip <> [] ->
+  is_ident_rune uni (peek rest) = false ->
+  fc_lex uni (asc_runes (num_signed neg (num_join ip fp)))
+         (fc_num_toks (num_signed neg (num_join ip fp)) rest) rest.
+Proof.
+  intros uni neg ip fp rest Hip Hfp Hne Hstop.
+  assert (Hne' : num_signed neg ip <> []) by (destruct neg, ip; cbn [num_signed]; congruence).
+  unfold num_join, fc_num_toks. destruct fp as [|f fp].
+  - rewrite (fc_signed_split_nofrac neg ip Hip).
+    apply fc_lex_asc_ident; [exact Hne'|apply fc_signed_ident; exact Hip|exact Hstop].
+  - destruct (fc_signed_split_frac neg ip (f :: fp) Hip) as (E1 & E2). rewrite E1, E2.
+    assert (Ha : asc_runes (num_signed neg (ip ++ "."%char :: f :: fp))
+                 = asc_runes (num_signed neg ip) ++ [(46, bs ".")] ++ asc_runes (f :: fp)).
+    { destruct neg; cbn [num_signed]; [change ("-"%char :: ip ++ "."%char :: f :: fp)
+                                         with (("-"%char :: ip) ++ "."%char :: f :: fp)|];
+        rewrite fc_asc_runes_app; reflexivity. }
+    rewrite Ha.
+    apply (fc_lex_app uni _ [mkTok TIdent (num_signed neg ip) 46]).
+    { apply (fc_lex_asc_ident uni (num_signed neg ip) (([(46, bs ".")] ++ asc_runes (f :: fp)) ++ rest));
+        [exact Hne'|apply fc_signed_ident; exact Hip|apply rp_ident_46]. }
+    apply (fc_lex_app uni _ [mkTok (TCh 46) (bs ".") (peek (asc_runes (f :: fp) ++ rest))]).
+    { apply fc_lex_dot. }
+    apply fc_lex_asc_ident; [discriminate|apply fc_digits_ident; exact Hfp|exact Hstop].
+Qed.
+
+Lemma fc_lex_param : forall uni p rest, lit_param_ok p ->
+  is_ident_rune uni (peek rest) = false ->
+  fc_lex uni (fc_param_cs p) (fc_param_toks p rest) rest.
+Proof.
+  intros uni [d|v|b|q|l] rest H Hstop; cbn [lit_param_ok] in H; try contradiction.
+  - destruct H as (Hn & _ & _).
+    destruct (fc_num_shape d Hn) as (neg & ip & fp & Hs & Hip & Hfp & Hne).
+    cbn [fc_param_cs fc_param_toks param_string]. rewrite Hs. apply fc_lex_num; assumption.
+  - destruct H as (_ & cs & Hcs & Hsafe).
+    cbn [fc_param_cs fc_param_toks param_string]. unfold rp_runes. rewrite Hcs.
+    assert (Hb : concat (map snd cs) = escape v) by (apply (rp_chars_fuel_bytes _ _ _ Hcs); lia).
+    rewrite <- Hb. apply fc_lex_string. exact Hsafe.
+  - cbn [fc_param_cs fc_param_toks].
+    apply fc_lex_asc_ident; [destruct b; discriminate|apply fc_bool_ident|exact Hstop].
+Qed.
+
+(** ** tokens of an argument list, of a path element, of a path *)
+Fixpoint fc_tail_toks (ps : list param) (rest : list (Z * str)) : list token :=
+  match ps with
+  | [] => [mkTok (TCh 41) (bs ")") (peek rest)]
+  | p :: ps' => mkTok (TCh 44) (bs ",") (peek (fc_param_cs p ++ fc_tail_cs ps' ++ rest))
+                :: fc_param_toks p (fc_tail_cs ps' ++ rest) ++ fc_tail_toks ps' rest
+  end.
+Definition fc_args_toks (ps : list param) (rest : list (Z * str)) : list token :=
+  match ps with
+  | [] => [mkTok (TCh 41) (bs ")") (peek rest)]
+  | p :: ps' => fc_param_toks p (fc_tail_cs ps' ++ rest) ++ fc_tail_toks ps' rest
+  end.
+Definition fc_op_toks (o : pathop) (rest : list (Z * str)) : list token :=
+  match o with
+  | PIdent k q _ =>
+    [mkTok (TCh 46) (bs ".") (peek (rp_key_cs (k, q) ++ rest));
+     mkTok TIdent (key_piece (k, q)) (peek rest)]
+  | PFunc (Func _ ft ps _) =>
+    mkTok (TCh 46) (bs ".") (peek (asc_runes ft ++ (40, bs "(") :: fc_args_cs ps ++ rest))
+    :: mkTok TIdent ft 40
+    :: mkTok (TCh 40) (bs "(") (peek (fc_args_cs ps ++ rest))
+    :: fc_args_toks ps rest
+  | PFilter _ _ => []
+  end.
+Fixpoint fc_ops_toks (ops : list pathop) : list token :=
+  match ops with
+  | [] => []
+  | o :: ops' => fc_op_toks o (fc_ops_cs ops') ++ fc_ops_toks ops'
+  end.
+
+Lemma fc_peek_tail : forall ps rest,
+  peek (fc_tail_cs ps ++ rest) = 41 \/ peek (fc_tail_cs ps ++ rest) = 44.
+Proof. intros [|p ps] rest; [left|right]; reflexivity. Qed.
+
+Lemma fc_peek_tail_stop : forall uni ps rest, is_ident_rune uni (peek (fc_tail_cs ps ++ rest)) = false.
+Proof.
+  intros uni ps rest. destruct (fc_peek_tail ps rest) as [E|E]; rewrite E; [apply fc_ident_41|apply fc_ident_44].
+Qed.
+
+Lemma fc_lex_rparen : forall uni rest, fc_lex uni [(41, bs ")")] [mkTok (TCh 41) (bs ")") (peek rest)] rest.
+Proof.
+  intros uni rest. apply fc_lex_ch; [reflexivity|apply fc_ident_41|discriminate|discriminate|discriminate].
+Qed.
+
+Lemma fc_lex_tail : forall uni ps rest, Forall lit_param_ok ps ->
+  fc_lex uni (fc_tail_cs ps) (fc_tail_toks ps rest) rest.
+Proof.
+  intros uni ps rest H. induction H as [|p ps Hp _ IH]; [apply fc_lex_rparen|].
+  cbn [fc_tail_cs fc_tail_toks].
+  apply (fc_lex_app uni [(44, bs ",")] [mkTok (TCh 44) (bs ",") (peek (fc_param_cs p ++ fc_tail_cs ps ++ rest))]
+                    (fc_param_cs p ++ fc_tail_cs ps)).
+  { rewrite <- app_assoc.
+    apply fc_lex_ch; [reflexivity|apply fc_ident_44|discriminate|discriminate|discriminate]. }
+  apply fc_lex_app; [|exact IH].
+  apply fc_lex_param; [exact Hp|apply fc_peek_tail_stop].
+Qed.
+
+Lemma fc_lex_args : forall uni ps rest, Forall lit_param_ok ps ->
+  fc_lex uni (fc_args_cs ps) (fc_args_toks ps rest) rest.
+Proof.
+  intros uni ps rest H. destruct H as [|p ps Hp Hps]; [apply fc_lex_rparen|].
+  cbn [fc_args_cs fc_args_toks].
+  apply fc_lex_app; [|apply fc_lex_tail; exact Hps].
+  apply fc_lex_param; [exact Hp|apply fc_peek_tail_stop].
+Qed.
+
+Lemma fc_lex_op : forall uni o rest, frag_op uni o ->
+  is_ident_rune uni (peek rest) = false ->
+  fc_lex uni (fc_op_cs o) (fc_op_toks o rest) rest.
+Proof.
+  intros uni [k q us|l us|[inv ft ps us]] rest H Hstop; cbn [frag_op] in H; [|contradiction|].
+  - cbn [fc_op_cs fc_op_toks].
+    destruct (rp_good_key_cs _ _ H) as (Hne & Hall & Hb).
+    apply (fc_lex_app uni [(46, bs ".")] [mkTok (TCh 46) (bs ".") (peek (rp_key_cs (k, q) ++ rest))]
+                      (rp_key_cs (k, q)) [mkTok TIdent (key_piece (k, q)) (peek rest)]).
+    { apply fc_lex_dot. }
+    rewrite <- Hb. apply fc_lex_ident; assumption.
+  - destruct H as (Hk & Hps). destruct (fc_known_func ft Hk) as (Hne & Hid & _).
+    cbn [fc_op_cs fc_op_toks].
+    apply (fc_lex_app uni [(46, bs ".")]
+             [mkTok (TCh 46) (bs ".") (peek (asc_runes ft ++ (40, bs "(") :: fc_args_cs ps ++ rest))]
+             (asc_runes ft ++ (40, bs "(") :: fc_args_cs ps)
+             (mkTok TIdent ft 40 :: mkTok (TCh 40) (bs "(") (peek (fc_args_cs ps ++ rest)) :: fc_args_toks ps rest)).
+    { rewrite <- app_assoc. apply fc_lex_dot. }
+    apply (fc_lex_app uni (asc_runes ft) [mkTok TIdent ft 40] ((40, bs "(") :: fc_args_cs ps)
+             (mkTok (TCh 40) (bs "(") (peek (fc_args_cs ps ++ rest)) :: fc_args_toks ps rest)).
+    { apply (fc_lex_asc_ident uni ft (((40, bs "(") :: fc_args_cs ps) ++ rest) Hne Hid). apply fc_ident_40. }
+    apply (fc_lex_app uni [(40, bs "(")] [mkTok (TCh 40) (bs "(") (peek (fc_args_cs ps ++ rest))]
+             (fc_args_cs ps) (fc_args_toks ps rest)).
+    { apply fc_lex_ch; [reflexivity|apply fc_ident_40|discriminate|discriminate|discriminate]. }
+    apply fc_lex_args. exact Hps.
+Qed.
+
+Lemma fc_peek_ops : forall uni ops, Forall (frag_op uni) ops ->
+  peek (fc_ops_cs ops) = -1 \/ peek (fc_ops_cs ops) = 46.
+Proof.
+  intros uni ops H. destruct H as [|o ops Ho _]; [left; reflexivity|right].
+  destruct o as [k q us|l us|[inv ft ps us]]; [reflexivity|contradiction|reflexivity].
+Qed.
+
+Lemma fc_peek_ops_stop : forall uni ops, Forall (frag_op uni) ops ->
+  is_ident_rune uni (peek (fc_ops_cs ops)) = false.
+Proof.
+  intros uni ops H. destruct (fc_peek_ops uni ops H) as [E|E]; rewrite E; [apply rp_ident_eof|apply rp_ident_46].
+Qed.
+
+Lemma fc_lex_ops : forall uni ops, Forall (frag_op uni) ops ->
+  fc_lex uni (fc_ops_cs ops) (fc_ops_toks ops) [].
+Proof.
+  intros uni ops H. induction H as [|o ops Ho Hops IH].
+  - intros k ts Hk. exact Hk.
+  - unfold fc_ops_cs. cbn [map concat fc_ops_toks]. fold (fc_ops_cs ops).
+    apply fc_lex_app; [|exact IH]. rewrite app_nil_r.
+    apply fc_lex_op; [exact Ho|apply fc_peek_ops_stop; exact Hops].
+Qed.
+
+(** ** the tokens are all visible *)
+Definition fc_vis_b (t : token) : bool :=
+  match tk t with TCh c => (32 <=? c) && (c <=? 126) | _ => true end.
+
+Lemma fc_vis_sound : forall uni toks, forallb fc_vis_b toks = true -> filter (visible uni) toks = toks.
+Proof.
+  intros uni toks. induction toks as [|t toks IH]; intros H; [reflexivity|].
+  cbn [forallb] in H. apply andb_true_iff in H. destruct H as [Ht Hts].
+  cbn [filter]. rewrite (IH Hts).
+  assert (Hv : visible uni t = true).
+  { unfold visible. unfold fc_vis_b in Ht. destruct (tk t) as [| | |c]; try reflexivity.
+    apply andb_true_iff in Ht. destruct Ht as [H1 H2]. apply Z.leb_le in H1. apply Z.leb_le in H2.
+    unfold is_print. replace (c <? 128) with true by (symmetry; apply Z.ltb_lt; lia).
+    apply andb_true_iff. split; apply Z.leb_le; lia. }
+  rewrite Hv. reflexivity.
+Qed.
+
+Lemma fc_vis_param : forall p rest, forallb fc_vis_b (fc_param_toks p rest) = true.
+Proof.
+  intros [d|v|b|q|l] rest; try reflexivity.
+  cbn [fc_param_toks]. unfold fc_num_toks. destruct (after_dot (dec_to_string d)); reflexivity.
+Qed.
+
+Lemma fc_vis_tail : forall ps rest, forallb fc_vis_b (fc_tail_toks ps rest) = true.
+Proof.
+  induction ps as [|p ps IH]; intros rest; [reflexivity|].
+  cbn [fc_tail_toks forallb]. rewrite forallb_app, fc_vis_param, IH. reflexivity.
+Qed.
+
+Lemma fc_vis_ops : forall ops, forallb fc_vis_b (fc_ops_toks ops) = true.
+Proof.
+  induction ops as [|o ops IH]; [reflexivity|].
+  cbn [fc_ops_toks]. rewrite forallb_app, IH, andb_true_r.
+  destruct o as [k q us|l us|[inv ft ps us]]; try reflexivity.
+  cbn [fc_op_toks forallb]. change (fc_vis_b (mkTok (TCh 46) (bs ".") _)) with true.
+  destruct ps as [|p ps]; [reflexivity|].
+  cbn [fc_args_toks]. rewrite forallb_app, fc_vis_param, fc_vis_tail. reflexivity.
+Qed.
+
+Definition fc_root_tok (root : bool) (ops : list pathop) : token :=
+  mkTok (TCh (rp_root_rune root)) (rp_root_str root) (peek (fc_ops_cs ops)).
+
+Lemma fc_lex_text : forall uni root ops, Forall (frag_op uni) ops ->
+  lex uni (fc_text root ops) = Some (fc_root_tok root ops :: fc_ops_toks ops).
+Proof.
+  intros uni root ops H. unfold lex. rewrite (fc_chars_text uni root ops H).
+  assert (Ht : tokens_fuel uni (length (fc_ops_cs ops) + 1) (fc_ops_cs ops ++ []) = Some (fc_ops_toks ops ++ [])).
+  { apply (fc_lex_ops uni ops H). reflexivity. }
+  rewrite !app_nil_r in Ht.
+  cbn [length]. rewrite rp_tokens_ch.
+  - rewrite (rp_tokens_fuel_mono uni _ (S (length (fc_ops_cs ops))) _ _ Ht) by lia.
+    cbn [option_map filter]. unfold visible at 1. cbn [tk].
+    replace (is_print uni (rp_root_rune root)) with true by (destruct root; reflexivity).
+    rewrite (fc_vis_sound uni _ (fc_vis_ops ops)). reflexivity.
+  - destruct root; reflexivity.
+  - destruct root; [apply rp_ident_36|apply rp_ident_64].
+  - destruct root; discriminate.
+  - destruct root; discriminate.
+  - destruct root; discriminate.
+Qed.
+
+(* ------------------------------------------------------------------ *)
+(** * The parser on that token stream                                   *)
+(* ------------------------------------------------------------------ *)
+
+Lemma fc_path_loop_func : forall k root isf me ops us txt rest,
+  path_loop (S k) root isf me ops us (CTok (mkTok TIdent txt 40)) rest
+  = do (c, r, f) <- parse_func k (CTok (mkTok TIdent txt 40)) rest;
+    path_loop k root isf me (ops ++ [PFunc f]) (us ++ func_us f) c r.
+Proof. reflexivity. Qed.
+
+Lemma fc_parse_func : forall k txt key b n rest,
+  ft_get_by_name txt = Some key ->
+  parse_func (S k) (CTok (mkTok TIdent txt 40)) (mkTok (TCh 40) b n :: rest)
+  = func_loop k false key [] (key ++ b) (CTok (mkTok (TCh 40) b n)) rest.
+Proof.
+  intros k txt key b n rest H.
+  change (parse_func (S k) (CTok (mkTok TIdent txt 40)) (mkTok (TCh 40) b n :: rest))
+    with (let '(invalid, ft) := match ft_get_by_name txt with
+                                | Some key => (false, key)
+                                | None => (true, txt)
+                                end in
+          func_loop k invalid ft [] (ft ++ b) (CTok (mkTok (TCh 40) b n)) rest).
+  rewrite H. reflexivity.
+Qed.
+
+Lemma fc_func_loop_lparen : forall k inv ft ps us b n rest,
+  func_loop (S k) inv ft ps us (CTok (mkTok (TCh 40) b n)) rest
+  = let (c, r) := scan rest in func_loop k inv ft ps us c r.
+Proof. reflexivity. Qed.
+
+Lemma fc_func_loop_comma : forall k inv ft ps us b n rest,
+  func_loop (S k) inv ft ps us (CTok (mkTok (TCh 44) b n)) rest
+  = let (c, r) := scan rest in func_loop k inv ft ps (us ++ ch_str 44) c r.
+Proof. reflexivity. Qed.
+
+Lemma fc_func_loop_rparen : forall k inv ft ps us b n rest,
+  func_loop (S k) inv ft ps us (CTok (mkTok (TCh 41) b n)) rest
+  = let (c, r) := scan rest in Ok (c, r, Func inv ft ps (us ++ ch_str 41)).
+Proof. reflexivity. Qed.
+
+Lemma fc_func_loop_string : forall k inv ft ps us txt n rest,
+  func_loop (S k) inv ft ps us (CTok (mkTok TString txt n)) rest
+  = let (c, r) := scan rest in
+    func_loop k inv ft (ps ++ [FPStr (unescape (strip_dquotes txt))]) (us ++ txt) c r.
+Proof. reflexivity. Qed.
+
+Lemma fc_func_loop_ident : forall k inv ft ps us txt n rest,
+  func_loop (S k) inv ft ps us (CTok (mkTok TIdent txt n)) rest
+  = if str_eqb txt (bs "true") then
+      let (c, r) := scan rest in func_loop k inv ft (ps ++ [FPBool true]) (us ++ txt) c r
+    else if str_eqb txt (bs "false") then
+      let (c, r) := scan rest in func_loop k inv ft (ps ++ [FPBool false]) (us ++ txt) c r
+    else
+      let '(ntxt, rest') := deal_with_numbers (mkTok TIdent txt n) rest in
+      match numeral ntxt with
+      | NumOk d => let (c, r) := scan rest' in func_loop k inv ft (ps ++ [FPNum d]) (us ++ ntxt) c r
+      | NumReject => perr
+      | NumUnknown => Declined "numeral outside the modelled fragment"
+      end.
+Proof. reflexivity. Qed.
+
+Lemma fc_param_toks_length : forall p rest, (1 <= length (fc_param_toks p rest))%nat.
+Proof.
+  intros [d|v|b|q|l] rest; cbn [fc_param_toks length]; try lia.
+  unfold fc_num_toks. destruct (after_dot (dec_to_string d)); cbn [length]; lia.
+Qed.
+
+(** one literal argument: one iteration of the loop *)
+Lemma fc_func_loop_param : forall p rest toks k inv ft ps0 us,
+  lit_param_ok p -> (peek rest = 41 \/ peek rest = 44) ->
+  (let (c, r) := scan (fc_param_toks p rest ++ toks) in func_loop (S k) inv ft ps0 us c r)
+  = (let (c, r) := scan toks in func_loop k inv ft (ps0 ++ [p]) (us ++ param_string p) c r).
+Proof.
+  intros [d|v|b|q|l] rest toks k inv ft ps0 us H Hpk; cbn [lit_param_ok] in H; try contradiction.
+  - (* number *)
+    pose proof H as (Hn & Hb & Ha).
+    pose proof (C09_number_roundtrip d Hn Hb Ha) as Hnum.
+    destruct (fc_num_shape d Hn) as (neg & ip & fp & Hs & Hip & Hfp & Hne).
+    cbn [fc_param_toks param_string]. rewrite Hs in Hnum |- *.
+    destruct (fc_signed_not_bool neg ip Hip Hne) as (Ht & Hf).
+    unfold num_join, fc_num_toks in *. destruct fp as [|f fp].
+    + rewrite (fc_signed_split_nofrac neg ip Hip).
+      cbn [app scan]. rewrite fc_func_loop_ident, Ht, Hf.
+      unfold deal_with_numbers. cbn [tnext ttext].
+      replace (peek rest =? 46) with false by (destruct Hpk as [E|E]; rewrite E; reflexivity).
+      rewrite Hnum. reflexivity.
+    + destruct (fc_signed_split_frac neg ip (f :: fp) Hip) as (E1 & E2). rewrite E1, E2.
+      cbn [app scan]. rewrite fc_func_loop_ident, Ht, Hf.
+      unfold deal_with_numbers. cbn [tnext ttext asc_runes map app peek].
+      change (46 =? 46) with true. cbv iota.
+      cbn [all_digits] in Hfp. apply andb_true_iff in Hfp. destruct Hfp as [Hfd _].
+      change (is_digit_rune (byte f)) with (is_digit f). rewrite Hfd.
+      assert (Htxt : num_signed neg ip ++ bs "." ++ f :: fp = num_signed neg (ip ++ "."%char :: f :: fp)).
+      { destruct neg; cbn [num_signed]; [change (bs "." ++ f :: fp) with ("."%char :: f :: fp)|];
+          reflexivity. }
+      rewrite Htxt, Hnum. reflexivity.
+  - (* string *)
+    destruct H as (Hc & _).
+    cbn [fc_param_toks app scan]. rewrite fc_func_loop_string.
+    rewrite (C09_literal_value v Hc). reflexivity.
+  - (* boolean *)
+    cbn [fc_param_toks app scan]. rewrite fc_func_loop_ident. destruct b; reflexivity.
+Qed.
+
+Lemma fc_func_loop_tail : forall ps, Forall lit_param_ok ps ->
+  forall rest toks fuel inv ft ps0 us,
+  (length (fc_tail_toks ps rest) <= fuel)%nat ->
+  (let (c, r) := scan (fc_tail_toks ps rest ++ toks) in func_loop fuel inv ft ps0 us c r)
+  = (let (c, r) := scan toks in Ok (c, r, Func inv ft (ps0 ++ ps) (us ++ fc_tail_text ps))).
+Proof.
+  intros ps H. induction H as [|p ps Hp _ IH]; intros rest toks fuel inv ft ps0 us Hf.
+  - cbn [fc_tail_toks length] in Hf. destruct fuel as [|k]; [lia|].
+    cbn [fc_tail_toks app scan]. rewrite fc_func_loop_rparen, app_nil_r. reflexivity.
+  - cbn [fc_tail_toks length] in Hf. rewrite app_length in Hf.
+    pose proof (fc_param_toks_length p (fc_tail_cs ps ++ rest)) as Hl.
+    destruct fuel as [|[|k]]; [lia|lia|].
+    cbn [fc_tail_toks app scan]. rewrite fc_func_loop_comma, <- app_assoc.
+    rewrite fc_func_loop_param by (exact Hp || apply fc_peek_tail).
+    rewrite IH by lia.
+    cbn [fc_tail_text]. rewrite <- !app_assoc. reflexivity.
+Qed.
+
+Lemma fc_func_loop_args : forall ps, Forall lit_param_ok ps ->
+  forall rest toks fuel inv ft us,
+  (length (fc_args_toks ps rest) <= fuel)%nat ->
+  (let (c, r) := scan (fc_args_toks ps rest ++ toks) in func_loop fuel inv ft [] us c r)
+  = (let (c, r) := scan toks in Ok (c, r, Func inv ft ps (us ++ fc_args_text ps))).
+Proof.
+  intros ps H rest toks fuel inv ft us Hf. destruct H as [|p ps Hp Hps].
+  - cbn [fc_args_toks length] in Hf. destruct fuel as [|k]; [lia|].
+    cbn [fc_args_toks app scan]. rewrite fc_func_loop_rparen. reflexivity.
+  - cbn [fc_args_toks] in Hf. rewrite app_length in Hf.
+    pose proof (fc_param_toks_length p (fc_tail_cs ps ++ rest)) as Hl.
+    destruct fuel as [|k]; [lia|].
+    cbn [fc_args_toks]. rewrite <- app_assoc.
+    rewrite fc_func_loop_param by (exact Hp || apply fc_peek_tail).
+    rewrite (fc_func_loop_tail ps Hps) by lia.
+    cbn [fc_args_text app]. rewrite <- !app_assoc. reflexivity.
+Qed.
+
+Lemma fc_bind_scan : forall (toks : list token) (F : func)
+    (K : cursor * list token * func -> pres path),
+  bind (let (c, r) := scan toks in Ok (c, r, F)) K = (let (c, r) := scan toks in K (c, r, F)).
+Proof. intros [|t toks] F K; reflexivity. Qed.
+
+Lemma fc_args_toks_length : forall ps rest, (1 <= length (fc_args_toks ps rest))%nat.
+Proof.
+  intros [|p ps] rest; cbn [fc_args_toks length]; [lia|].
+  rewrite app_length. pose proof (fc_param_toks_length p (fc_tail_cs ps ++ rest)). lia.
+Qed.
+
+Lemma fc_path_loop_ops : forall uni ops, Forall (frag_op uni) ops ->
+  forall fuel root isf me ops0 us, (length (fc_ops_toks ops) + 1 <= fuel)%nat ->
+  (let (c, r) := scan (fc_ops_toks ops) in path_loop fuel root isf me ops0 us c r)
+  = Ok (CZero, [], Path false root isf me (ops0 ++ fc_norm_ops ops) (us ++ fc_ops_text ops)).
+Proof.
+  intros uni ops H. induction H as [|o ops Ho Hops IH]; intros fuel root isf me ops0 us Hf.
+  - destruct fuel as [|fuel]; [cbn [fc_ops_toks length] in Hf; lia|].
+    cbn [fc_ops_toks scan]. rewrite rp_path_loop_eof.
+    unfold fc_norm_ops, fc_ops_text. cbn [map concat]. rewrite !app_nil_r. reflexivity.
+  - destruct o as [k q us1|l us1|[inv ft ps us1]]; cbn [frag_op] in Ho; [|contradiction|].
+    + (* a key *)
+      cbn [fc_ops_toks fc_op_toks app length] in Hf.
+      destruct fuel as [|[|fuel]]; [lia|lia|].
+      cbn [fc_ops_toks fc_op_toks app scan].
+      rewrite rp_path_loop_dot. cbn [scan].
+      rewrite rp_path_loop_key
+        by (destruct (fc_peek_ops uni ops Hops) as [E|E]; rewrite E; discriminate).
+      destruct Ho as (_ & _ & Hq). rewrite (rp_strip_qmark_piece (k, q) Hq). cbn [fst snd].
+      rewrite IH by lia.
+      unfold fc_norm_ops, fc_ops_text. cbn [map concat fc_norm_op fc_op_text].
+      rewrite <- !app_assoc. reflexivity.
+    + (* a call *)
+      destruct Ho as (Hk & Hps). destruct (fc_known_func ft Hk) as (_ & _ & Hget).
+      cbn [fc_ops_toks fc_op_toks app length] in Hf. rewrite app_length in Hf.
+      pose proof (fc_args_toks_length ps (fc_ops_cs ops)) as Hl.
+      destruct fuel as [|[|[|[|fuel]]]]; [lia|lia|lia|lia|].
+      cbn [fc_ops_toks fc_op_toks app scan].
+      rewrite rp_path_loop_dot. cbn [scan].
+      rewrite fc_path_loop_func.
+      rewrite (fc_parse_func _ ft ft _ _ _ Hget).
+      rewrite fc_func_loop_lparen.
+      rewrite (fc_func_loop_args ps Hps) by lia.
+      rewrite fc_bind_scan. cbv beta iota.
+      rewrite IH by lia.
+      unfold fc_norm_ops, fc_ops_text. cbn [map concat fc_norm_op fc_op_text func_us].
+      rewrite fc_sprint_func. unfold fc_func_text.
+      rewrite <- !app_assoc. reflexivity.
+Qed.
+
+Lemma fc_ops_toks_bound : forall root ops,
+  exists f, parse_fuel (fc_root_tok root ops :: fc_ops_toks ops) = S (S f)
+            /\ (length (fc_ops_toks ops) + 1 <= f)%nat.
+Proof.
+  intros root ops. unfold parse_fuel. cbn [length].
+  exists (3 * length (fc_ops_toks ops) + 9)%nat. split; lia.
+Qed.
+
+Lemma fc_top_loop_root : forall k root n rest,
+  top_loop (S (S k)) None (CTok (mkTok (TCh (rp_root_rune root)) (rp_root_str root) n)) rest
+  = do (c, r, p) <- (let (c, r) := scan rest in
+                     path_loop k root false false [] (rp_root_str root) c r);
+    top_loop (S k) (Some (TopP p)) c r.
+Proof. intros k [|] n rest; reflexivity. Qed.
+
+Lemma fc_parse_toks : forall uni root ops, Forall (frag_op uni) ops ->
+  parse_tokens (fc_root_tok root ops :: fc_ops_toks ops)
+  = Ok (TopP (Path false root false false (fc_norm_ops ops) (fc_text root ops))).
+Proof.
+  intros uni root ops H. unfold parse_tokens. cbn [scan].
+  destruct (fc_ops_toks_bound root ops) as (f & -> & Hf).
+  unfold fc_root_tok. rewrite fc_top_loop_root.
+  rewrite (fc_path_loop_ops uni ops H) by exact Hf.
+  reflexivity.
+Qed.
+
+(* ------------------------------------------------------------------ *)
+(** * Main statements                                                   *)
+(* ------------------------------------------------------------------ *)
+
+Theorem C09_litfunc_reparse_text : forall uni root ops,
+  Forall (frag_op uni) ops ->
+  parse_string uni (fc_text root ops)
+  = Ok (TopP (Path false root false false (fc_norm_ops ops) (fc_text root ops))).
+Proof.
+  intros uni root ops H. unfold parse_string.
+  rewrite (fc_lex_text uni root ops H). exact (fc_parse_toks uni root ops H).
+Qed.
+
+Lemma fc_params_struct_eq : forall ps, Forall lit_param_ok ps -> Forall2 struct_eq_param ps ps.
+Proof.
+  intros ps H. induction H as [|p ps Hp _ IH]; constructor; [|exact IH].
+  destruct p; cbn [lit_param_ok] in Hp; try contradiction; constructor.
+Qed.
+
+Lemma fc_norm_struct_eq : forall uni ops, Forall (frag_op uni) ops ->
+  Forall2 struct_eq_pathop ops (fc_norm_ops ops).
+Proof.
+  intros uni ops H. unfold fc_norm_ops. induction H as [|o ops Ho _ IH]; [constructor|].
+  cbn [map]. constructor; [|exact IH].
+  destruct o as [k q us|l us|[inv ft ps us]]; cbn [frag_op] in Ho; [constructor|contradiction|].
+  cbn [fc_norm_op]. constructor. constructor. apply fc_params_struct_eq. exact (proj2 Ho).
+Qed.
+
+Theorem C09_litfunc_reparse : forall uni inv root me ops us,
+  Forall (frag_op uni) ops ->
+  let a := Path inv root false me ops us in
+  exists a', parse_string uni (sprint_top (TopP a)) = Ok (TopP a') /\
+             struct_eq (TopP a) (TopP a') /\
+             sprint_top (TopP a') = sprint_top (TopP a) /\
+             path_us a' = sprint_top (TopP a).
+Proof.
+  intros uni inv root me ops us H a. unfold a.
+  pose proof (fc_frag_no_filter uni ops H) as Hnf.
+  rewrite (C09_litfunc_sprint inv root false me ops us Hnf).
+  exists (Path false root false false (fc_norm_ops ops) (fc_text root ops)).
+  split; [exact (C09_litfunc_reparse_text uni root ops H)|].
+  split; [constructor; constructor; exact (fc_norm_struct_eq uni ops H)|].
+  split; [|reflexivity].
+  rewrite (C09_litfunc_sprint _ _ _ _ _ _ (fc_norm_no_filter ops Hnf)).
+  unfold fc_text. rewrite fc_norm_text. reflexivity.
+Qed.
+
+(** and therefore evaluates to the same result on every data value *)
+Corollary C09_litfunc_same_result : forall uni eng inv root me ops us data,
+  Forall (frag_op uni) ops ->
+  let a := Path inv root false me ops us in
+  exists a', parse_string uni (sprint_top (TopP a)) = Ok (TopP a') /\
+             do_top uni eng (TopP a') data = do_top uni eng (TopP a) data.
+Proof.
+  intros uni eng inv root me ops us data H a.
+  destruct (C09_litfunc_reparse uni inv root me ops us H) as (a' & Hp & Hs & _).
+  exists a'. split; [exact Hp|]. symmetry. apply C09_same_result_top. exact Hs.
+Qed.
+
+(** a decidable sufficient condition for [known_func] *)
+Lemma fc_known_func_b : forall ft,
+  existsb (fun d => str_eqb (bs (fd_key d)) ft) func_table = true -> known_func ft.
+Proof.
+  intros ft H. apply existsb_exists in H. destruct H as (d & Hin & E).
+  apply str_eqb_eq in E. exists d. split; [exact Hin|symmetry; exact E].
+Qed.
+
+(** in the generated table every descriptor's Name is its key, so the
+    parser's lookup by Name and Sprint's printing of the key agree for every
+    known function (re-checked whenever the table is regenerated) *)
+Example C09_litfunc_names_are_keys :
+  forallb (fun d => str_eqb (bs (fd_name d)) (bs (fd_key d))) func_table = true /\
+  forallb (fun d => fc_name_ok (bs (fd_key d))) func_table = true.
+Proof. vm_compute. split; reflexivity. Qed.
+
+(** ** Examples *)
+Definition fc_ex_ops : list pathop :=
+  [PIdent (bs "a") true [];
+   PFunc (Func true (bs "Equal")
+            [FPStr [chr 120; chr 9; chr 121]; FPNum (mkDec (-125) (-1)); FPBool true] (bs "junk"));
+   PFunc (Func false (bs "Count") [] [])].
+
+Example C09_litfunc_ex1 :
+  parse_string uni_ascii (bs "$.a?.Equal(""x\ty"",-12.5,true).Count()")
+  = Ok (TopP (Path false true false false
+                [PIdent (bs "a") true (bs "a?");
+                 PFunc (Func false (bs "Equal")
+                          [FPStr [chr 120; chr 9; chr 121]; FPNum (mkDec (-125) (-1)); FPBool true]
+                          (bs "Equal(""x\ty"",-12.5,true)"));
+                 PFunc (Func false (bs "Count") [] (bs "Count()"))]
+                (bs "$.a?.Equal(""x\ty"",-12.5,true).Count()"))).
+Proof. vm_compute. reflexivity. Qed.
+
+(** the hypotheses of the theorem hold for that tree, its text is the query
+    above, and the tree the theorem predicts is the one computed *)
+Example C09_litfunc_ex2 :
+  Forall (frag_op uni_ascii) fc_ex_ops /\
+  sprint_top (TopP (Path true true false true fc_ex_ops (bs "stale")))
+  = bs "$.a?.Equal(""x\ty"",-12.5,true).Count()" /\
+  parse_string uni_ascii (bs "$.a?.Equal(""x\ty"",-12.5,true).Count()")
+  = Ok (TopP (Path false true false false (fc_norm_ops fc_ex_ops) (fc_text true fc_ex_ops))).
+Proof.
+  split; [|split; vm_compute; reflexivity].
+  unfold fc_ex_ops. constructor; [|constructor; [|constructor; [|constructor]]].
+  - (* the key a? *)
+    cbn [frag_op]. split; [discriminate|split].
+    + eexists; split; vm_compute; reflexivity.
+    + cbn [snd]. discriminate.
+  - (* Equal("x\ty",-12.5,true) *)
+    cbn [frag_op]. split; [apply fc_known_func_b; vm_compute; reflexivity|].
+    constructor; [|constructor; [|constructor; [exact I|constructor]]].
+    + cbn [lit_param_ok]. split; [vm_compute; reflexivity|].
+      eexists; split; vm_compute; reflexivity.
+    + cbn [lit_param_ok]. split; [vm_compute; reflexivity|split; [vm_compute; reflexivity|]].
+      vm_compute. discriminate.
+  - (* Count() *)
+    cbn [frag_op]. split; [apply fc_known_func_b; vm_compute; reflexivity|constructor].
+Qed.
+
+Example C09_litfunc_ex3 :
+  parse_string uni_ascii (bs "@.items.Sum(1,0.25,-3).Greater(100)")
+  = Ok (TopP (Path false false false false
+                [PIdent (bs "items") false (bs "items");
+                 PFunc (Func false (bs "Sum") [FPNum (mkDec 1 0); FPNum (mkDec 25 (-2)); FPNum (mkDec (-3) 0)]
+                          (bs "Sum(1,0.25,-3)"));
+                 PFunc (Func false (bs "Greater") [FPNum (mkDec 1 2)] (bs "Greater(100)"))]
+                (bs "@.items.Sum(1,0.25,-3).Greater(100)"))).
+Proof. vm_compute. reflexivity. Qed.
+
+(** outside the fragment: a non-canonical number in a hand-built tree prints as
+    "1" and comes back as the canonical 1, which is a different parameter *)
+Example C09_litfunc_noncanonical_number_refuted :
+  let t := TopP (Path false true false false [PFunc (Func false (bs "Add") [FPNum (mkDec 10 (-1))] [])] []) in
+  sprint_top t = bs "$.Add(1)" /\
+  parse_string uni_ascii (sprint_top t)
+  = Ok (TopP (Path false true false false
+                [PFunc (Func false (bs "Add") [FPNum (mkDec 1 0)] (bs "Add(1)"))] (bs "$.Add(1)"))) /\
+  ~ num_ok (mkDec 10 (-1)).
+Proof.
+  split; [vm_compute; reflexivity|split; [vm_compute; reflexivity|]].
+  intros (H & _). vm_compute in H. discriminate H.
+Qed.
+
+(* ================================================================== *)
+(** * 6. UserString reproduces the query text                           *)
+(* ================================================================== *)
+(** A query written as Sprint writes it (no optional white space, no
+    comments) is reproduced exactly by the UserString of its parse. *)
+Theorem C09_keypath_userstring : forall uni root ks,
+  Forall (good_key uni) ks ->
+  exists t, parse_string uni (key_text root ks) = Ok t /\ top_us t = key_text root ks.
+Proof.
+  intros uni root ks H. eexists. split; [apply C09_keypath_reparse; exact H|reflexivity].
+Qed.
+
+Theorem C09_litfunc_userstring : forall uni root ops,
+  Forall (frag_op uni) ops ->
+  exists t, parse_string uni (fc_text root ops) = Ok t /\ top_us t = fc_text root ops.
+Proof.
+  intros uni root ops H. eexists. split; [apply C09_litfunc_reparse_text; exact H|reflexivity].
+Qed.
+
+(** With optional white space the userString is the text with the white space
+    removed — not the text. *)
+Example C09_userstring_whitespace :
+  exists t, parse_string uni_ascii (bs "$ .a . b") = Ok t /\ top_us t = bs "$.a.b".
+Proof. eexists. split; vm_compute; reflexivity. Qed.
+
+(* ================================================================== *)
+(** * Findings: queries that parse, whose Sprint text parses to something else *)
+(* ================================================================== *)
+
+(** Character literals: the parser keeps the single quotes in the value (only
+    double quotes are stripped); Sprint prints the value as a double-quoted
+    literal.  Checked on examples only. *)
+Definition c9_first_arg (o : outcome top) : option param :=
+  match o with
+  | Ok (TopP (Path _ _ _ _ [_; PFunc (Func _ _ (p :: _) _)] _)) => Some p
+  | _ => None
+  end.
+Definition c9_reparse (uni : uclass) (q : str) : outcome top :=
+  match parse_string uni q with Ok t => parse_string uni (sprint_top t) | o => o end.
+
+Example C09_char_literal_examples :
+  forallb (fun q =>
+             match c9_first_arg (parse_string uni_ascii (bs q)), c9_first_arg (c9_reparse uni_ascii (bs q)) with
+             | Some (FPStr v), Some (FPStr v') => str_eqb v v'
+             | _, _ => false
+             end)
+          ["$.x.Equal('a')"; "$.x.Equal('""')"; "$.x.Equal('\n')"; "$.x.Equal('\'')"; "$.x.Equal('\\')";
+           "$.x.Equal('\x41')"; "$.x.Equal('\101')"; "$.x.Equal(""\\\"""")"; "$.x.Equal(""a\qb"")"]%string
+  = true.
+Proof. vm_compute. reflexivity. Qed.
+
+(** FINDING.  FP_Path.String() / FP_LogicalOperation.String() print the
+    *userString* of a path or group argument, i.e. the token texts glued
+    together without separators, where the top level prints with Sprint.  Two
+    tokens that were separated only by white space (or by a character the
+    function parser silently skips) merge into one:
+      $.x.Equal($.a b)        parses as the keys a, b;    Sprint: $.x.Equal($.ab)
+      $.x.Equal($.y.Add(1;2)) parses as Add(1, 2);        Sprint: $.x.Equal($.y.Add(12))
+    The Sprint text parses, to a different operation with a different result.
+    (Confirmed on the Go implementation: on {"x":1,"y":1,"a":{"b":1},"ab":2} the
+    first query yields true, its Sprint text yields false.) *)
+Definition c9_num (z : Z) : gv := VFloat false false (FFin (mkDec z 0)).
+Definition c9_obj (kvs : list (string * gv)) : gv :=
+  VMap KtStr EAny false (map (fun kv => (VStr false (bs (fst kv)), snd kv)) kvs).
+Definition c9_data : gv :=
+  c9_obj [("x", c9_num 1); ("y", c9_num 1); ("a", c9_obj [("b", c9_num 1)]); ("ab", c9_num 2)]%string.
+
+Example C09_nested_path_argument_refuted :
+  exists t t',
+    parse_string uni_ascii (bs "$.x.Equal($.a b)") = Ok t /\
+    sprint_top t = bs "$.x.Equal($.ab)" /\
+    parse_string uni_ascii (sprint_top t) = Ok t' /\
+    sprint_top t' = sprint_top t /\
+    do_top uni_ascii no_engines t c9_data = Ok (VBool false true) /\
+    do_top uni_ascii no_engines t' c9_data = Ok (VBool false false) /\
+    ~ struct_eq t t'.
+Proof.
+  eexists. eexists.
+  split; [vm_compute; reflexivity|].
+  split; [vm_compute; reflexivity|].
+  split; [vm_compute; reflexivity|].
+  split; [vm_compute; reflexivity|].
+  split; [vm_compute; reflexivity|].
+  split; [vm_compute; reflexivity|].
+  intros H. apply (C09_same_result_top uni_ascii no_engines _ _ c9_data) in H.
+  vm_compute in H. discriminate H.
+Qed.
+
+Example C09_nested_skipped_separator_refuted :
+  exists t t',
+    parse_string uni_ascii (bs "$.x.Equal($.y.Add(1;2))") = Ok t /\
+    sprint_top t = bs "$.x.Equal($.y.Add(12))" /\
+    parse_string uni_ascii (sprint_top t) = Ok t' /\
+    do_top uni_ascii no_engines t c9_data = Err (EOther "expected 1 params") /\
+    do_top uni_ascii no_engines t' c9_data = Ok (VBool false false) /\
+    ~ struct_eq t t'.
+Proof.
+  eexists. eexists.
+  split; [vm_compute; reflexivity|].
+  split; [vm_compute; reflexivity|].
+  split; [vm_compute; reflexivity|].
+  split; [vm_compute; reflexivity|].
+  split; [vm_compute; reflexivity|].
+  intros H. apply (C09_same_result_top uni_ascii no_engines _ _ c9_data) in H.
+  vm_compute in H. discriminate H.
+Qed.
+
+(** At the top level the same spellings are harmless: Sprint prints its own
+    separators. *)
+Example C09_top_level_whitespace_ok :
+  exists t t',
+    parse_string uni_ascii (bs "$.a b.AnyOf(1 2;3)") = Ok t /\
+    sprint_top t = bs "$.a.b.AnyOf(1,2,3)" /\
+    parse_string uni_ascii (sprint_top t) = Ok t' /\ sprint_top t' = sprint_top t.
+Proof.
+  eexists. eexists.
+  split; [vm_compute; reflexivity|].
+  split; [vm_compute; reflexivity|].
+  split; [vm_compute; reflexivity|].
+  vm_compute; reflexivity.
+Qed.
+
+(** Model limit (not a defect of the library): numerals beyond 15 printed
+    digits are outside the modelled fragment of strconv.ParseFloat; the value
+    1e20 parses, prints as 100000000000000000000, and the model declines. *)
+Example C09_number_large_exponent_declined :
+  numeral (bs "1e20") = NumOk (mkDec 1 20) /\
+  dec_to_string (mkDec 1 20) = bs "100000000000000000000" /\
+  numeral (dec_to_string (mkDec 1 20)) = NumUnknown.
+Proof. vm_compute. repeat split; reflexivity. Qed.
+
+(* ================================================================== *)
+(** * Assumptions                                                       *)
+(* ================================================================== *)
+Print Assumptions C09_struct_eq_refl.
+Print Assumptions C09_same_result.
+Print Assumptions C09_same_result_top.
+Print Assumptions C09_escape_unescape_tables.
+Print Assumptions C09_escape_order_independent.
+Print Assumptions C09_unescape_order_independent.
+Print Assumptions C09_unescape_escape.
+Print Assumptions C09_unescape_escape_any_order.
+Print Assumptions C09_unescape_escape_unclean_refuted.
+Print Assumptions C09_body_bs_bs_n.
+Print Assumptions C09_literal_value.
+Print Assumptions C09_number_roundtrip.
+Print Assumptions C09_number_roundtrip_box.
+Print Assumptions C09_number_roundtrip_simple.
+Print Assumptions C09_number_ex_100.
+Print Assumptions C09_number_ex_neg_frac.
+Print Assumptions C09_number_ex_small.
+Print Assumptions C09_number_ex_zero.
+Print Assumptions C09_number_ex_15_digits.
+Print Assumptions C09_number_16_digits_declined.
+Print Assumptions C09_number_adj_limit.
+Print Assumptions C09_number_noncanonical_refuted.
+Print Assumptions C09_keypath_sprint.
+Print Assumptions C09_keypath_reparse.
+Print Assumptions C09_keypath_fixed_point.
+Print Assumptions C09_keypath_reparse_ascii.
+Print Assumptions C09_keypath_ex1.
+Print Assumptions C09_keypath_ex2.
+Print Assumptions C09_keypath_ex3.
+Print Assumptions C09_keypath_ex4.
+Print Assumptions C09_keypath_ex5.
+Print Assumptions C09_key_trailing_qmark_refuted.
+Print Assumptions C09_keypath_reparse_needs_good_key_refuted.
+Print Assumptions C09_literal_lex.
+Print Assumptions C09_literal_roundtrip.
+Print Assumptions C09_literal_roundtrip_ascii.
+Print Assumptions C09_literal_trailing_bslash_refuted.
+Print Assumptions C09_key_roundtrip.
+Print Assumptions C09_key_roundtrip_trailing_qmark.
+Print Assumptions C09_keypath_struct_eq.
+Print Assumptions C09_keypath_same_result.
+Print Assumptions C09_unescape_escape_weak.
+Print Assumptions C09_unescape_image_wclean.
+Print Assumptions C09_unescape_escape_on_image.
+Print Assumptions C09_string_token_roundtrip_ascii.
+Print Assumptions C09_clean_not_necessary.
+Print Assumptions C09_string_token_roundtrip.
+Print Assumptions C09_literal_roundtrip_utf8.
+Print Assumptions C09_string_utf8_example.
+Print Assumptions C09_litfunc_sprint.
+Print Assumptions C09_litfunc_reparse_text.
+Print Assumptions C09_litfunc_reparse.
+Print Assumptions C09_litfunc_same_result.
+Print Assumptions C09_litfunc_names_are_keys.
+Print Assumptions C09_litfunc_ex1.
+Print Assumptions C09_litfunc_ex2.
+Print Assumptions C09_litfunc_ex3.
+Print Assumptions C09_litfunc_noncanonical_number_refuted.
+Print Assumptions C09_keypath_userstring.
+Print Assumptions C09_litfunc_userstring.
+Print Assumptions C09_userstring_whitespace.
+Print Assumptions C09_char_literal_examples.
+Print Assumptions C09_nested_path_argument_refuted.
+Print Assumptions C09_nested_skipped_separator_refuted.
+Print Assumptions C09_top_level_whitespace_ok.
+Print Assumptions C09_number_large_exponent_declined.
